@@ -2,7 +2,7 @@
    The class is an Errs.cspec, so the field-loop theorems of C05_errors.v apply verbatim; the statements below
    instantiate them and add what is specific to the union and Literal positions. *)
 From Coq Require Import List String ZArith Bool.
-From Verif Require Import Core TupleIdx TyModel Errs ErrsProofs ErrsTy ErrsX.
+From Verif Require Import Core TupleIdx TyModel Errs ErrsProofs ErrsTy ErrsTyProofs ErrsX.
 Import ListNotations.
 Open Scope string_scope.
 Open Scope list_scope.
@@ -34,7 +34,7 @@ Theorem C05_x_union_position : forall E Q CF cls f ms v,
   (exists x, xdec E Q CF true cls f v = Ok x /\ from_member (map (umember_of E Q CF) ms) v x) \/
   xdec E Q CF true cls f v = Exn (XInvalidFieldValue (xf_name f) v cls).
 Proof.
-  intros E Q CF cls f ms v Ht Htame. unfold xdec. rewrite Ht.
+  intros E Q CF cls f ms v Ht Htame. unfold xdec. rewrite Ht. cbn [xrun xfinal].
   exact (union_outcomes (map (umember_of E Q CF) ms) (XInvalidFieldValue (xf_name f) v cls) v Htame).
 Qed.
 Print Assumptions C05_x_union_position.
@@ -47,10 +47,57 @@ Theorem C05_x_union_rejects_partial : forall E Q CF cls f ms v,
   Forall (fun m => member_tame m v = true) (map (umember_of E Q CF) ms) ->
   xdec E Q CF true cls f v = Exn (XInvalidFieldValue (xf_name f) v cls).
 Proof.
-  intros E Q CF cls f ms v Ht Hn Ha Htame. unfold xdec. rewrite Ht.
+  intros E Q CF cls f ms v Ht Hn Ha Htame. unfold xdec. rewrite Ht. cbn [xrun xfinal].
   exact (union_rejects_garbage _ _ v Hn Ha Htame).
 Qed.
 Print Assumptions C05_x_union_rejects_partial.
+
+(* ---------------------------------------------------------------- union / Literal positions INSIDE containers *)
+(* List[x] on a list: the only exception is the one of an element's own position, unchanged -- for a union element
+   that is the union's final exception naming THAT element (final elem) *)
+Theorem C05_x_list_exn : forall E Q CF final x l e,
+  xrun E Q CF final (XList x) (VList l) = Exn e -> exists elem, In elem l /\ xrun E Q CF final x elem = Exn e.
+Proof.
+  intros E Q CF final x l e H. cbn [xrun] in H.
+  destruct (mapM (xrun E Q CF final x) l) as [r|e'] eqn:Em; cbn [bind] in H; [discriminate|].
+  inversion H; subst. exact (mapM_exn _ _ _ Em).
+Qed.
+Print Assumptions C05_x_list_exn.
+
+Theorem C05_x_list_ok : forall E Q CF final x l r,
+  xrun E Q CF final (XList x) (VList l) = Ok r ->
+  exists ys, r = VList ys /\ Forall2 (fun elem y => xrun E Q CF final x elem = Ok y) l ys.
+Proof.
+  intros E Q CF final x l r H. cbn [xrun] in H.
+  destruct (mapM (xrun E Q CF final x) l) as [ys|e'] eqn:Em; cbn [bind] in H; [|discriminate].
+  inversion H; subst. exists ys. split; [reflexivity|]. exact (mapM_ok _ _ _ Em).
+Qed.
+Print Assumptions C05_x_list_ok.
+
+(* a garbage element of List[Union[...]] (no None member): the list raises the union's final exception for that
+   element, provided the elements before it are accepted *)
+Theorem C05_x_list_union_rejects_partial : forall E Q CF final ms pre elem post ys,
+  Forall2 (fun a y => xrun E Q CF final (XUnion ms) a = Ok y) pre ys ->
+  Forall (fun m => is_none_member m = false) (map (umember_of E Q CF) ms) ->
+  Forall (fun m => member_accepts m elem = false) (map (umember_of E Q CF) ms) ->
+  Forall (fun m => member_tame m elem = true) (map (umember_of E Q CF) ms) ->
+  xrun E Q CF final (XList (XUnion ms)) (VList (pre ++ elem :: post)) = Exn (final elem).
+Proof.
+  intros E Q CF final ms pre elem post ys Hpre Hn Ha Ht. cbn [xrun].
+  assert (He: xrun E Q CF final (XUnion ms) elem = Exn (final elem))
+    by (cbn [xrun]; exact (union_rejects_garbage _ _ elem Hn Ha Ht)).
+  assert (Hm: mapM (xrun E Q CF final (XUnion ms)) (pre ++ elem :: post) = Exn (final elem)).
+  { induction Hpre as [|a y pre' ys' Hay _ IH]; cbn [app mapM].
+    - rewrite He. reflexivity.
+    - rewrite Hay, IH. reflexivity. }
+  cbn [xrun] in Hm. rewrite Hm. reflexivity.
+Qed.
+Print Assumptions C05_x_list_union_rejects_partial.
+
+Theorem C05_x_dict_not_mapping : forall E Q CF final kt x v, is_dict v = false ->
+  xrun E Q CF final (XDict kt x) v = Exn XAttributeError.
+Proof. intros E Q CF final kt x v H. destruct v; try reflexivity. discriminate H. Qed.
+Print Assumptions C05_x_dict_not_mapping.
 
 (* Literal positions: the result is the input itself and it is one of the listed values, of the same class;
    otherwise ValueError and no listed value equals the input *)
@@ -123,4 +170,23 @@ Example C05_x_ex :
     = Exn (XInvalidFieldValue "l" (VBool true) "K")                       (* True == 1 but is not an int *)
   /\ uex [] Qx CFx true Kx (VDict [(VStr "u", VInt 1); (VStr "w", VStr "garbage")])
     = Ok (VObj "K" [("u", VInt 1); ("w", VNone); ("l", VInt 1)]).         (* known finding union-none-fallback *)
+Proof. repeat split; reflexivity. Qed.
+
+(* class L: us: List[Union[int, date]]; m: Dict[str, Literal[1, "a"]] = {}; o: Optional[Literal["x"]] = None *)
+Definition Lx : xcls :=
+  {| xc_name := "L";
+     xc_fields := [ {| xf_name := "us"; xf_ty := XList (XUnion [SIntT; SLeaf "date"]); xf_default := None |};
+                    {| xf_name := "m"; xf_ty := XDict SStrT (XLit [LInt 1; LStr "a"]); xf_default := Some (VDict []) |};
+                    {| xf_name := "o"; xf_ty := XOpt (XLit [LStr "x"]); xf_default := Some VNone |} ] |}.
+Example C05_x_ex_nested :
+  uex [] Qx CFx true Lx (VDict [(VStr "us", VList [VInt 1; VStr "2020-01-02"]); (VStr "m", VDict [(VStr "k", VStr "a")]); (VStr "o", VNone)])
+    = Ok (VObj "L" [("us", VList [VInt 1; VLeaf "date" "2020-01-02"]); ("m", VDict [(VStr "k", VStr "a")]); ("o", VNone)])
+  /\ uex [] Qx CFx true Lx (VDict [(VStr "us", VList [VInt 1; VStr "zz"; VNone])])
+    = Exn (XInvalidFieldValue "us" (VList [VInt 1; VStr "zz"; VNone]) "L")
+  (* the cause names the offending ELEMENT *)
+  /\ uex_cause [] Qx CFx true Lx (VDict [(VStr "us", VList [VInt 1; VStr "zz"; VNone])]) = Some (XInvalidFieldValue "us" (VStr "zz") "L")
+  /\ uex_cause [] Qx CFx false Lx (VDict [(VStr "us", VList [VInt 1; VStr "zz"])]) = Some XValueError
+  /\ uex_cause [] Qx CFx true Lx (VDict [(VStr "us", VInt 5)]) = Some XTypeError
+  /\ uex_cause [] Qx CFx true Lx (VDict [(VStr "us", VList []); (VStr "m", VDict [(VStr "k", VBool true)])]) = Some XValueError
+  /\ uex [] Qx CFx true Lx (VDict [(VStr "us", VList []); (VStr "o", VStr "y")]) = Exn (XInvalidFieldValue "o" (VStr "y") "L").
 Proof. repeat split; reflexivity. Qed.
